@@ -552,3 +552,66 @@ def correspond(check, name, model_exe, impl_exe, lines, describe=None, bucket=No
         l, a, b = min(dis, key=lambda d: len(d[0]))
         check.broken.append("correspondence %s: %d disagreement(s); smallest: case %r model=%r impl=%r" % (name, len(dis), l[:200], a[:200], b[:200]))
     return dis
+
+
+# --------------------------------------------------------------------------
+# resource-limited runs of real code (added for C07/C08/C19: a broken loop in the
+# code under test must become a violation with its input, not a hung or
+# memory-eating check)
+
+def _limits(mem_mb):
+    def f():
+        import resource
+        os.setsid()
+        if mem_mb:
+            b = mem_mb * 1024 * 1024
+            resource.setrlimit(resource.RLIMIT_AS, (b, b))
+    return f
+
+
+def run_limited(argv, stdin=b"", timeout=20, mem_mb=2048, env=None):
+    """Like run_tool, but in its own process group (killed as a whole on timeout) and
+    with an address-space limit.  Returns (status, stdout, stderr); status 'timeout'."""
+    import signal
+    p = subprocess.Popen(argv, stdin=subprocess.PIPE, stdout=subprocess.PIPE, stderr=subprocess.PIPE,
+                         env=env, preexec_fn=_limits(mem_mb))
+    try:
+        out, err = p.communicate(stdin, timeout=timeout)
+        return p.returncode, out, err
+    except subprocess.TimeoutExpired:
+        try:
+            os.killpg(p.pid, signal.SIGKILL)
+        except Exception:
+            p.kill()
+        out, err = p.communicate()
+        return "timeout", out or b"", err or b""
+    finally:
+        try:
+            os.killpg(p.pid, signal.SIGKILL)     # stray children of the tool (scripted child programs)
+        except Exception:
+            pass
+
+
+def run_lines_limited(exe, lines, timeout=120, mem_mb=2048):
+    """run_lines with limits.  Returns (status, out_lines, stderr_text)."""
+    st, out, err = run_limited([exe], ("\n".join(lines) + "\n").encode(), timeout=timeout, mem_mb=mem_mb)
+    o = out.decode("utf-8", "replace").split("\n")
+    if o and o[-1] == "":
+        o.pop()
+    return st, o, err.decode("utf-8", "replace")
+
+
+def find_culprit(exe, lines, timeout=5, mem_mb=2048):
+    """The harness did not answer all lines: find the first line it does not survive
+    (answers come one per line, so the number of answers locates it)."""
+    lo = 0
+    for _ in range(8):
+        st, o, err = run_lines_limited(exe, lines[lo:], timeout=timeout if lo else 60, mem_mb=mem_mb)
+        if len(o) >= len(lines) - lo:
+            return None
+        bad = lo + len(o)
+        st1, o1, e1 = run_lines_limited(exe, [lines[bad]], timeout=timeout, mem_mb=mem_mb)
+        if len(o1) < 1:
+            return bad, st1, e1[-300:]
+        lo = bad + 1
+    return None
